@@ -33,6 +33,7 @@ share nothing with it but the directory): every crash state is judged
 from __future__ import annotations
 
 import gc as _gc
+import hashlib
 import json
 import os
 import shutil
@@ -112,11 +113,12 @@ def _logical(root: str, adoptable_v0: bool = False) -> Dict[str, Any]:
             if len(mds) == 1 and mds[0][0] == 0:
                 ts = reader.TableState(view, name=mds[0][1])
     except reader.ReadError as e:
-        return {"md": None, "rows": {}, "errors": [str(e)]}
+        return {"md": None, "rows": {}, "errors": [str(e)], "files": {}}
     if ts.md is None:
-        return {"md": None, "rows": {}, "errors": []}
+        return {"md": None, "rows": {}, "errors": [], "files": {}}
+    files = {f: hashlib.md5(view.get(f) or b"").hexdigest() for f in ts.reachable() | {"metadata/" + ts.md["__file__"]}}
     return {"md": _j(ts.md), "rows": {str(i): list(s.rows or []) for i, s in ts.snaps.items()},
-            "errors": list(ts.errors)}
+            "errors": list(ts.errors), "files": files}
 
 
 def _swept(rel: str) -> bool:
@@ -340,7 +342,7 @@ def record(payload: Tuple[Any, ...]) -> Dict[str, Any]:
             raise HarnessError(f"rows of snapshot {k} differ between PRE and POST")
         rows[k] = v
     exp = {"kind": kind, "has_flip": rec.has_flip, "pre_md": pre["md"], "post_md": post["md"], "rows": rows,
-           "clock": ENV.clock, "initial_files": rec.initial_files,
+           "clock": ENV.clock, "initial_files": rec.initial_files, "pre_files": pre["files"],
            "op_deleted": sorted(set(rec.initial_files) - set(rec.final_files))}
     states = rec.state_list()
     shutil.rmtree(root, ignore_errors=True)
@@ -504,6 +506,12 @@ class Judge:
             want = exp["rows"].get(str(sid))
             if want is not None and list(sv.rows or []) != list(want):
                 self.fail("snapshot_rows_changed", snapshot=sid, observed=(sv.rows or [])[:10], expected=want[:10])
+        # ... and nothing a PRE snapshot reaches (nor the PRE metadata document) was touched by the dead operation
+        gone = sorted(f for f in exp["pre_files"] if f not in self.files0)
+        changed = sorted(f for f, h in exp["pre_files"].items()
+                         if f in self.files0 and hashlib.md5(self.view.get(f) or b"").hexdigest() != h)
+        if gone or changed:
+            self.fail("file_of_the_pre_state_missing_or_modified", missing=gone, modified=changed)
         self.ok()
         self._info(ts)
 
@@ -731,7 +739,8 @@ def run(tier: str, seed: int) -> Report:
         "of the operation (makedirs, mkstemp/NamedTemporaryFile, open, write, fsync, close, rename, unlink, flock take/"
         "release, parquet writer open/close; crash_points = steps + 1), merged by content hash of (path, bytes, mtime) "
         "into distinct crash states, plus empty/half/full variants of every temp parquet file; every distinct state is "
-        "reopened in a fresh process and judged by 6 checks (evaluations = states x checks reached). A state is "
+        "reopened in a fresh process and judged by the 6 checks of the module docstring (evaluations = sub-checks reached, 9 "
+        "per state that passes all). A state is "
         "non-trivial (distinct_nontrivial = distinct (op, base, tree hash)) when its tree differs from both the tree "
         "before the operation and the tree after it. Thorough adds double crashes: every distinct crash state of "
         "create/empty, append/s1, delete_files/s3 and gc/gcbase is the base table of a second operation that is "
@@ -785,6 +794,9 @@ def reproduce(op: str, base: str, step: int, torn: Any = None, seed: int = 0, ke
         ibase = rest.rsplit("@", 1)[0]
         inner = record((iop, ibase, "quick", seed))
         hit = [s for n, s in nested_sources(inner) if n == base]
+        tail = rest.rsplit("@", 1)[1]
+        if not hit and tail.isdigit():  # any step index of a state names it
+            hit = [s for n, s in nested_sources(inner) if int(tail) in s["steps"] and not s.get("torn")][-1:]
         if not hit:
             raise HarnessError(f"no crash state named {base}")
         src = {"path": hit[0]["path"], "clock": inner["exp"]["clock"]}
@@ -800,9 +812,14 @@ def reproduce(op: str, base: str, step: int, torn: Any = None, seed: int = 0, ke
 
 def replay(case: Dict[str, Any]) -> Dict[str, Any]:
     det = case.get("detail", {})
+    want = case["key"]
+    if want.get("phase") == "no_crash":
+        r = record((want["op"], want["base"], "quick", case.get("seed", 0)))
+        for st in r["states"]:
+            shutil.rmtree(st["path"], ignore_errors=True)
+        return {"violated": "broken_base" in r, "error": r.get("broken_base")}
     p = reproduce(det["op"], det["base"], int(det["step"]), det.get("torn"), case.get("seed", 0), keep=False)
     res = judge(p)
     keys = [v["key"] for v in res["part"]["violations"].values()]
-    want = case["key"]
     hit = [k for k in keys if all(k.get(f) == v for f, v in want.items())]
     return {"violated": bool(hit), "matching": hit[:3], "all_keys": keys[:20], "class": res["cls"]}
